@@ -1,6 +1,7 @@
 package main
 
 import (
+	"os"
 	"fmt"
 	"go/token"
 	"go/types"
@@ -34,6 +35,15 @@ func (e *engine) newFnCtx(fn *ssa.Function, blk *block, name string) *fnCtx {
 
 // verifyFunc generates the obligations of one function under contract.
 func (e *engine) verifyFunc(fn *ssa.Function, blk *block) (res *fnResult) {
+	if dbg := os.Getenv("KVC_FORCE_ALIAS"); dbg != "" {
+		alias := map[string]string{}
+		for _, kv := range strings.Split(dbg, ",") {
+			if i := strings.Index(kv, "="); i > 0 {
+				alias[kv[:i]] = kv[i+1:]
+			}
+		}
+		return e.verifyFuncWith(fn, blk, alias)
+	}
 	return e.verifyFuncWith(fn, blk, nil)
 }
 
